@@ -82,7 +82,32 @@ def run_impl(binary, schedules, tag="sched"):
                 if "end" in r:
                     continue
                 results.setdefault(r["case"], []).append(r)
+    for recs in results.values():
+        normalize_iterators(recs)
     return results
+
+
+def normalize_iterators(recs):
+    """A lazy multi_get_iterator kept by a caller (`iter_open` / `iter_open_map`, then one `iter_next` per element) is, element
+    by element, a single-key read: the records are rewritten to `get k` / `map_get k` (and `advance 0` for opening it and for a
+    `next()` behind the last element), so that the model, the differ and the monitors see what was read when."""
+    its = {}
+    for r in recs:
+        if r["skipped"]:
+            continue
+        p = r["ev"].split()
+        if p[0] != "call" or len(p) < 3:
+            continue
+        if p[2] in ("iter_open", "iter_open_map"):
+            its[p[1]] = ([] if p[3] == "-" else [int(x) for x in p[3].split(",")], p[2] == "iter_open_map")
+            r["orig_ev"], r["ev"], r["ret"] = r["ev"], "advance 0", []
+        elif p[2] == "iter_next":
+            keys, mapped = its.get(p[1], ([], False))
+            r["orig_ev"] = r["ev"]
+            if keys:
+                r["ev"] = "call %s %s %d" % (p[1], "map_get" if mapped else "get", keys.pop(0))
+            else:
+                r["ev"], r["ret"] = "advance 0", []
 
 
 def opt(s):
@@ -413,6 +438,7 @@ def correspond(binary, schedules, tag="sched", window=False):
         for ev, rec in zip(s["events"], recs):
             if rec["skipped"]:
                 continue
+            ev = rec.get("ev", ev)
             if window:
                 evs.append(event_coq_m(ev, rec, st) if window == "micro" else event_coq_w(ev, rec, st))
                 cev = canon_window_event(ev, pending)
